@@ -137,6 +137,18 @@ func c08(r *ev.Run) {
 		xplore.Run(c.Choices, func(x *xplore.X) { obs, bad = secretHistory(c, x) })
 		return obs, bad
 	})
+	{
+		tag := make([]byte, 256)
+		for i := range tag {
+			tag[i] = byte(i*5 + 1)
+		}
+		var cs []c08Case
+		for a := 0; a < 3; a++ {
+			cs = append(cs, c08Case{Algos: []int{a}, Stream: tag}, c08Case{Algos: []int{a, (a + 1) % 3, a}, Stream: tag})
+		}
+		cs = append(cs, c08Case{Algos: []int{3}, Stream: tag}, c08Case{Algos: []int{255, 0}, Stream: tag})
+		afterWarmups(r, "random-secret-after-other-operations", cs, func(c c08Case) (string, string) { return secretHistory(c, nil) })
+	}
 	if ReplayOnly {
 		return
 	}
